@@ -64,9 +64,19 @@ def main():
         res["demo_changed_tail"] = out1.strip().splitlines()[-3:]
         if not a.no_suite:
             t = time.time()
-            rc, out = sh("%s -m pytest -ra -q -p no:cacheprovider --timeout=900 --continue-on-collection-errors 2>&1 | tail -3" % PY, cwd=wt, env={"PYTHONDONTWRITEBYTECODE": "1"})
+            rc, out = sh("%s -m pytest -ra -q -p no:cacheprovider --timeout=900 --continue-on-collection-errors 2>&1 | grep -E '^(FAILED|ERROR)|passed|failed' | tail -40" % PY, cwd=wt, env={"PYTHONDONTWRITEBYTECODE": "1"})
+            stable = set(json.load(open("/root/.vp/BASELINE.json"))["stable_pass"]) if os.path.exists("/root/.vp/BASELINE.json") else set()
+            failed = []
+            for l in out.splitlines():
+                if l.startswith(("FAILED", "ERROR")):
+                    nid = l.split()[1]
+                    nid = nid.replace(".py::", "::").replace("/", ".")
+                    nid = nid.split("[")[0] if nid not in stable else nid
+                    failed.append(nid)
             res["suite_tail"] = out.strip().splitlines()[-1:]
-            res["suite_ok"] = (" failed" not in out) and (" error" not in out.lower()) and ("passed" in out)
+            res["suite_failed_tests"] = failed
+            res["suite_failed_stable"] = [f for f in failed if f in stable]
+            res["suite_ok"] = ("passed" in out) and not res["suite_failed_stable"]
             res["suite_s"] = round(time.time() - t)
         checks = (a.checks.split(",") if a.checks else [a.prop])
         res["checks"] = {}
